@@ -1,7 +1,8 @@
 #!/bin/sh
+# usage: tools/seed_matrix.sh ['glob']   (default: every seed)
 # for every confirmed seeded change: apply it to /repo's working tree, run the Verus tier once plus the quick check of its target property, undo
 cd "$(dirname "$0")/.."
-for d in seeded/*/; do
+for d in seeded/${1:-*}/; do
   id=$(basename $d); pid=$(echo ${id%%-*} | cut -c1-3)
   echo "=== $id"
   python3 tools/seed_eval.py /verif/$d/patch.diff --check $pid 2>&1 | grep -v WARNING | cut -c1-500
